@@ -34,7 +34,8 @@ PROPS = ("C02", "C10", "C09")
 
 
 class _Val:
-    """operand value: f_kind 'A' (methods return NotImplemented) or 'B' (methods compare ghost numbers)"""
+    """operand value: f_kind 'A' (methods return NotImplemented), 'B' (methods compare ghost numbers) or 'D' (like B but
+    the class defines no __ne__: Python's default `!=` is the inverted __eq__, std.SFixed / std.UFixed are such classes)"""
 
 
 class _Expr:
@@ -76,10 +77,16 @@ def _gettype(it, obj):
 
 
 def _getattr(it, typ, name):
+    if typ[1] == "D" and name == "__ne__":
+        return object.__ne__  # class D defines __eq__ only: its __ne__ is the one inherited from object
     return ("method", typ[1], name)
 
 
 def _subcall(it, self, fn, args, kwargs, noreturn=None):
+    if fn is object.__ne__:
+        # a slot wrapper has no Python source: it runs NATIVELY on the compile-time placeholders of the operands; its
+        # result is a constant that does not depend on the run-time values
+        return SObj(_Expr, f_result=True)
     _, kind, name = fn
     x, y = args
     if kind == "A":
@@ -135,6 +142,63 @@ for op_cls, opname in AST_OP.items():
             con.cases.append(c)
 
 
+def _mk_inv(it, args, kwargs):
+    op, arg, target = args
+    assert op is PA.out.UnaryOp.Operator.INV
+    return SObj(_Expr, f_result=sym.Not(arg.fields["f_result"].fields["f_v"]))
+
+
+# operands of a class with __eq__ but without __ne__: `a != b` is the inverted value of the TRACED __eq__ (until fix
+# the default object.__ne__ ran natively on the placeholders and the comparison was folded to a constant)
+for op_cls, opname in ((ast.NotEq, "__ne__"), (ast.Eq, "__eq__")):
+    for kl, kr in (("D", "A"), ("D", "B"), ("D", "D"), ("A", "D"), ("B", "D")):
+        opshape = Built([], (lambda oc: lambda env: oc())(op_cls), lambda a: "<op>", lambda a: None)
+        c = Case(f"{op_cls.__name__}:{kl},{kr}", [opshape, operand_shape("x", kl), operand_shape("y", kr)], cmp_spec(opname, kl, kr))
+        c.native = False
+        c.may_reject = AssertionError
+        c.nested_env = lambda it: {"self": SObj(_Prep)}
+        c.models = MODELS
+        c.interp_flags = {"class_call_models": {PA.out.UnaryOp: _mk_inv, PA.Temporary[bool]: lambda it, args, kw: SObj(_Val, f_kind="T"), PA.Temporary: lambda it, args, kw: SObj(_Val, f_kind="T"),
+                                                PA.out.Value: lambda it, args, kw: SObj(_Expr, f_result=args[0])}}
+        c.custom_replay = "contracts.c02_frontend.replay_default_ne"
+        con.cases.append(c)
+
+
+_NE_DESIGN = '''
+import cohdl
+from cohdl import Entity, Port, Bit, Signed, std
+from cohdl.std import SFixed
+
+class NeDesign(Entity):
+    a = Port.input(Signed[8])
+    b = Port.input(Signed[8])
+    o1 = Port.output(Bit)
+    o2 = Port.output(Bit)
+    o3 = Port.output(Bit)
+
+    def architecture(self):
+        @std.concurrent
+        def logic():
+            x = SFixed[4:-3](raw=self.a)
+            w = SFixed[4:-3](raw=self.b)
+            self.o1 <<= x != w
+            self.o2 <<= x != 1.5
+            self.o3 <<= 1.5 != x
+
+print(std.VhdlCompiler.to_string(NeDesign))
+'''
+
+
+def replay_default_ne(payload):
+    """native: `!=` of std.SFixed values (class with __eq__ only) must depend on the run-time operands"""
+    import re
+    from contracts.c06_extra import _run_design
+    rc, text = _run_design(_NE_DESIGN)
+    bad = [p for p in ("o1", "o2", "o3") if re.search(rf"buffer_{p} <= '[01]';", text)]
+    return {"reproduced": rc == 0 and bool(bad),
+            "detail": f"x != w, x != 1.5, 1.5 != x for x, w = SFixed[4:-3] built from input ports: outputs {bad} are driven by a constant (comparison evaluated on compile-time placeholders)"}
+
+
 # ---- all() / any(): constant folding mixed with run-time elements ------------------------------------------------
 # PrepareAst.convert_intrinsic, branches `_All` / `_Any`.  Elements of the iterable (arrangements enumerated up to
 # three elements): a run-time type-qualified value ('q'), a compile-time True / False ('T' / 'F'), an object whose
@@ -167,9 +231,11 @@ def _repl_fn(iterable):
 I.register_model(_repl_fn, lambda it, iterable: SObj(it.fold_marker, iterable=iterable))
 
 
-def _convert_boolean(it, self, x):
+def _convert_boolean(it, self, x, bound=None):
     if isinstance(x, bool):
         return SObj(_Expr, f_result=x)
+    if sym.is_sym(x):  # the run-time result of a traced comparison
+        return SObj(_Expr, f_result=SObj(_Val, f_kind="T", f_v=x))
     if isinstance(x, SObj) and x.kind is _Obj:
         return SObj(_Expr, f_result=SObj(_Signal, f_b=x.fields["f_b"], _value=None, _ref_spec=[]))
     if isinstance(x, SObj) and x.kind is _Signal:
@@ -177,7 +243,7 @@ def _convert_boolean(it, self, x):
     raise AssertionError(x)
 
 
-_Prep.convert_boolean = lambda self, x: None
+_Prep.convert_boolean = lambda self, x, bound=None: None
 I.register_model(_Prep.convert_boolean, _convert_boolean)
 
 
